@@ -47,8 +47,9 @@ def run(ck):
             H = H / 8.0 if step > 5 else H
             ham = Hamiltonian(data=H.copy())
             LF = LindbladForm(ham, sbi, as_operators=False)
-        time = TimeAxis(0.0, Nt, step)
-        inp = {"n": n, "H": H.tolist(), "K": [k.tolist() for k in Ks], "rates": rates, "Nt": Nt, "step": step, "Ndense": Nd}
+        t0_ = 0.0 if h % 3 else (step * 3, -step * 2, 7.5)[(h // 3) % 3]        # grids that do not start at zero as well
+        time = TimeAxis(t0_, Nt, step)
+        inp = {"n": n, "H": H.tolist(), "K": [k.tolist() for k in Ks], "rates": rates, "Nt": Nt, "step": step, "Ndense": Nd, "axis_start": t0_}
         try:
             U = EvolutionSuperOperator(time, ham, LF)
             U.set_dense_dt(Nd)
@@ -93,6 +94,15 @@ def run(ck):
         if numpy.abs(direct - via).max() > 1e-9 * sc:
             ck.fail("apply-vs-propagate", "U applied to a state differs from direct propagation with the same internal step", inp,
                     float(numpy.abs(direct - via).max()))
+        for i_ in range(Nt):
+            try:
+                ati = numpy.array(U.at(float(time.data[i_])).data).reshape(nn, nn)
+                if numpy.abs(ati - Um[i_]).max() > 1e-12 * sc:
+                    ck.fail("at:grid-point", "U.at(t_i) is not the stored U(t_i)", dict(inp, i=i_), float(numpy.abs(ati - Um[i_]).max()))
+                    break
+            except Exception as e:
+                ck.fail("raises:at", "U.at(t_i) at a grid point raised %r" % (e,), dict(inp, i=i_))
+                break
         # the entry points of apply() that take several times at once: a list / tuple / array / TimeAxis of grid times (also spaced by a
         # multiple of the step, also not starting at zero), the superoperator's own axis, "all"
         forms = [("own axis", time, list(range(Nt))), ("'all'", "all", list(range(Nt)))]
@@ -104,7 +114,7 @@ def run(ck):
             sel1 = list(range(1, Nt))
             forms.append(("tuple", tuple(float(time.data[i]) for i in sel1), sel1))
             forms.append(("array", numpy.array([float(time.data[i]) for i in sel1]), sel1))
-            forms.append(("TimeAxis", TimeAxis(float(time.data[i0]), len(sel2), 2 * step), sel2) if len(sel2) >= 2 else ("TimeAxis", TimeAxis(step, Nt - 1, step), sel1))
+            forms.append(("TimeAxis", TimeAxis(float(time.data[i0]), len(sel2), 2 * step), sel2) if len(sel2) >= 2 else ("TimeAxis", TimeAxis(float(time.data[1]), Nt - 1, step), sel1))
         for fname, targ, sel in forms:
             try:
                 many = numpy.array(U.apply(targ, ReducedDensityMatrix(data=rho0.copy())).data)
@@ -177,6 +187,12 @@ def run(ck):
                 J = EvolutionSuperOperator(jtime, ham, LF, mode="jit")
                 J.set_dense_dt(Nd)
                 for q_ in range(k):
+                    if q_ == 1 and save and inctx is None:
+                        # a call the object refuses (calculate() belongs to the other mode), caught by the caller, between two steps
+                        try:
+                            J.calculate()
+                        except Exception:
+                            pass
                     if inctx is not None and q_ == inctx:
                         from quantarhei import eigenbasis_of
                         with eigenbasis_of(ham):
@@ -224,6 +240,62 @@ def run(ck):
                 ck.fail("exp", "U(t_i) further from exp(t_i*generator) than the truncation bound", dict(inp, i=i),
                         float(numpy.linalg.norm(Um[i] - ex, 2)))
                 break
+    # ---- with an additional Lorentzian pure-dephasing object (tensor and operator form of the generator): identity, semigroup, trace and
+    # Hermiticity, U applied vs direct propagation with the same objects, step-by-step vs all at once ---------------------------------
+    from quantarhei.qm import PureDephasing
+    for h in range(ck.n(3, 20)):
+        n = rng.choice([2, 3])
+        H = SY.rand_herm(numpy, rng, n, scale=16.0)
+        Ks, rates = SY.lindblad_ops(numpy, rng, n)
+        rates = [r / 4.0 for r in rates]
+        sbi = SystemBathInteraction([Operator(data=K) for K in Ks], rates=tuple(rates))
+        ham = Hamiltonian(data=H.copy())
+        as_ops = (h % 2 == 1)
+        LF = LindbladForm(ham, sbi, as_operators=as_ops)
+        gpd = numpy.zeros((n, n))
+        for i_ in range(n):
+            for j_ in range(i_ + 1, n):
+                gpd[i_, j_] = gpd[j_, i_] = rng.randint(1, 8) / 64.0
+        Nt, step, Nd = rng.randint(3, 5), rng.choice([0.5, 1.0, 2.0]), rng.choice([1, 2, 3])
+        time = TimeAxis(0.0, Nt, step)
+        inp = {"n": n, "H": H.tolist(), "K": [k.tolist() for k in Ks], "rates": rates, "pure_dephasing_rates": gpd.tolist(), "Nt": Nt, "step": step,
+               "Ndense": Nd, "generator_as_operators": as_ops}
+        ck.case(("pdeph", h, n, as_ops), nontrivial=True, kind="all", Ndense=Nd, Nt=Nt, dim=n)
+        try:
+            pd_ = PureDephasing(drates=gpd.copy(), dtype="Lorentzian")
+            U = EvolutionSuperOperator(time, ham, LF, pdeph=pd_)
+            U.set_dense_dt(Nd); U.calculate()
+            data = numpy.array(U.data); nn = n * n; Um = data.reshape(Nt, nn, nn); sc = max(1.0, float(numpy.abs(Um).max()))
+            rho0, _ = SY.rand_state(numpy, rng, n)
+            prop = ReducedDensityMatrixPropagator(time, ham, RTensor=LF, PDeph=pd_)
+            direct = numpy.array(prop.propagate(ReducedDensityMatrix(data=rho0.copy()), Nref=Nd).data)
+            via = numpy.array([numpy.array(U.apply(float(time.data[i]), ReducedDensityMatrix(data=rho0.copy())).data) for i in range(Nt)])
+            J = EvolutionSuperOperator(time, ham, LF, pdeph=pd_, mode="jit"); J.set_dense_dt(Nd)
+            for q_ in range(Nt - 1):
+                J.calculate_next(save=True)
+            jd = numpy.array(J.data).reshape(Nt, nn, nn)
+        except Exception as e:
+            ck.fail("raises:pure-dephasing", "evolution superoperator with a pure-dephasing object raised %r" % (e,), inp)
+            continue
+        bad = []
+        if numpy.abs(Um[0] - numpy.eye(nn)).max() > 1e-12:
+            bad.append(("identity", float(numpy.abs(Um[0] - numpy.eye(nn)).max())))
+        w_ = max(float(numpy.abs(Um[i] @ Um[j] - Um[i + j]).max()) for i in range(Nt) for j in range(Nt - i))
+        if w_ > 1e-9 * sc * sc:
+            bad.append(("semigroup", w_))
+        A = numpy.array([[rng.randint(-4, 4) / 4.0 + 1j * rng.randint(-4, 4) / 4.0 for _ in range(n)] for _ in range(n)])
+        for i in range(Nt):
+            B = numpy.tensordot(data[i], A)
+            if abs(numpy.trace(B) - numpy.trace(A)) > 1e-9 * sc:
+                bad.append(("trace", float(abs(numpy.trace(B) - numpy.trace(A))))); break
+            if numpy.abs(numpy.tensordot(data[i], A.conj().T) - B.conj().T).max() > 1e-9 * sc:
+                bad.append(("herm", float(numpy.abs(numpy.tensordot(data[i], A.conj().T) - B.conj().T).max()))); break
+        if numpy.abs(direct - via).max() > 1e-9 * sc:
+            bad.append(("apply-vs-propagate", float(numpy.abs(direct - via).max())))
+        if numpy.abs(jd - Um).max() > 1e-9 * sc:
+            bad.append(("jit-vs-all", float(numpy.abs(jd - Um).max())))
+        for k_, v_ in bad:
+            ck.fail("pure-dephasing:" + k_, "with an additional pure-dephasing object: %s clause fails" % k_, inp, v_)
     model = ck.drive(DRIVER, lines)
     if model is not None:
         for l, a, b, t in zip(lines, impl, model, tol):
